@@ -112,6 +112,26 @@ def run_flow(ctx) -> RuleResult:
                                        f"its complete reversal: terms can be skipped or repeated"))
     if not seen:
         raise AnalysisError("_to_string: the term loop is never entered on any path")
+    # str/repr print through to_string (full precision), never through numpy's own array printing of values
+    for fname, mname in (("array_str", "numpoly.array_function.array_str"), ("array_repr", "numpoly.array_function.array_repr")):
+        pmod = ctx.repo.module(mname)
+        pfunc = ctx.repo.function(mname, fname)
+        for path in ctx.paths(pmod, pfunc):
+            last = path[-1]
+            if last.kind != "return" or last.node.value is None:
+                continue
+            value = last.expand(last.node.value)
+            text = _txt(value)
+            empty = any(".size" in _txt(node) and pol is False for node, pol in last.fact_items())
+            ok = "to_string(" in text or (empty and "[]" in text)
+            result.ob(f"{fname}: text is produced by to_string [{' / '.join(describe_path(path))}]"[:160], ok,
+                      pmod.loc(last.orig), text[:80])
+            if not ok:
+                result.add(Finding(
+                    "R-FLOW", pmod, fname, last.node,
+                    f"{fname} returns {text[:80]}, which does not go through to_string: numpy's own array printing "
+                    f"rounds to the print precision, so the text no longer denotes the polynomial",
+                    derivation=describe_path(path)))
     # coefficient elision: '' only for coefficient == 1, '-' only for coefficient == -1
     n_elide = 0
     for node in ast.walk(term_loop):
